@@ -39,6 +39,7 @@ EXHAUSTIVE = {"quick": False, "thorough": False}
 
 B62 = string.digits + string.ascii_uppercase + string.ascii_lowercase
 DEFAULT_ALPHABET = string.digits + string.ascii_uppercase
+K5 = "K5"
 NATIVE = "C13-native-literal"
 XSHAPE = "C13-cross-shape"
 
@@ -863,7 +864,7 @@ def _recipe_sources(case):
     byname = {v["name"]: v for v in case["vars"]}
     big = bool(case["big"])
     dnum = ("PPid", "PContext", "PIndex") if big else ("PContext", "PIndex")
-    dalpha = ("PPid", "PContext", "PIndex") if big else ("PContext", "PIndex")   # since fix 73af7bb
+    dalpha = ("PPid", "PContext", "PIndex") if big else ("PIndex",)
     out = []
     for s in case["fields"]:
         if s in ("unique_id", "UniqueId.unique_id"):
@@ -906,16 +907,17 @@ def _native(code):
 
 
 def _recipe_failures(case, obs):
-    """(other_failures, native_mangled, cross_shape_collisions)
-    native_mangled = (native-types recipes only) alpha field values that are not the code the generator
-    returned but the value of that code read as a Python literal.  cross_shape = equal values from generators
-    whose template shapes differ.  (The former K5 class — identical codes of default alpha generators in
-    small-id mode — was repaired by 73af7bb and is an ordinary failure again.)"""
-    other, mangled, xshape = [], [], []
+    """(other_failures, k5_collisions, native_mangled, cross_shape_collisions)
+    K5 = collisions among alpha codes that all come from alpha generators created WITHOUT a template in
+    small-id mode.  native_mangled = (native-types recipes only) alpha field values that are not the code the
+    generator returned but the value of that code read as a Python literal.  cross_shape = equal values from
+    generators whose template shapes differ."""
+    other, k5, mangled, xshape = [], [], [], []
+    small = not case["big"]
     if "err" in obs:
         if obs["err"] == "DGE" and _min_bits_too_small(case):
-            return [], [], []     # scramble_number's own `assert minbits >= 10` (an error, not a collision)
-        return [f"recipe: a valid recipe failed with {obs['err']}"], [], []
+            return [], [], [], []     # scramble_number's own `assert minbits >= 10` (an error, not a collision)
+        return [f"recipe: a valid recipe failed with {obs['err']}"], [], [], []
     rows = obs["rows"]
     src = _recipe_sources(case)
     expected_rows = case["count"] * case["iterations"]
@@ -967,13 +969,15 @@ def _recipe_failures(case, obs):
                     key = (abc, code)
                     if key in seen_alpha:
                         pri, pfi = seen_alpha[key]
-                        if src[pfi]["shape"] != s["shape"] or src[pfi]["rc"] != s["rc"]:
+                        if small and s["default"] and src[pfi]["default"]:
+                            k5.append((code, (pri, pfi), (ri, fi)))
+                        elif src[pfi]["shape"] != s["shape"] or src[pfi]["rc"] != s["rc"]:
                             xshape.append((code, (pri, pfi), (ri, fi)))
                         else:
                             other.append(f"recipe: alpha code {code!r} appears twice: row {pri} f{pfi} and "
                                          f"row {ri} f{fi}")
                     seen_alpha.setdefault(key, (ri, fi))
-    return other, mangled, xshape
+    return other, k5, mangled, xshape
 
 
 def oracle(case, obs):
@@ -1060,7 +1064,7 @@ def oracle(case, obs):
                     f"produced {v!r} (draws {ki} and {kj})")
         return None
     if kind == "recipe":
-        other, mangled, xshape = _recipe_failures(case, obs)
+        other, k5, mangled, xshape = _recipe_failures(case, obs)
         if other:
             return other[0]
         if xshape:
@@ -1072,6 +1076,10 @@ def oracle(case, obs):
             v, c, ri, fi = mangled[0]
             return (f"native-literal-class: snowfakery_version 3 emitted the alpha code {c!r} as {v!r} "
                     f"({type(v).__name__}) in row {ri} f{fi}; {len(mangled)} such values")
+        if k5:
+            code, a, b = k5[0]
+            return (f"K5-class: default alpha generators in small-id mode emitted {code!r} twice "
+                    f"(row {a[0]} f{a[1]} and row {b[0]} f{b[1]}); {len(k5)} such collisions")
         return None
 
 
@@ -1080,7 +1088,9 @@ def violation_class(case, obs, msg):
 
 
 def match_finding(case, obs, msg, findings):
-    """C13-cross-shape: a recipe whose ONLY failures are equal values from two generators
+    """K5: a recipe in small-id mode whose ONLY failures are repeated codes among alpha generators that were
+    created without a template (unique_alpha_code / default UniqueId.AlphaCodeGenerator).
+    C13-cross-shape: a recipe whose ONLY failures (besides K5-class ones) are equal values from two generators
     whose template shapes differ (e.g. `index,context` against the default `context,index`).
     C13-native-literal: a `snowfakery_version: 3` recipe whose ONLY failures are alpha field values that equal
     ast.literal_eval(code) of a code the generator really returned (and that code itself is fine)."""
@@ -1088,7 +1098,7 @@ def match_finding(case, obs, msg, findings):
     if case.get("kind") != "recipe" or not isinstance(msg, str):
         return None
     try:
-        other, mangled, xshape = _recipe_failures(case, obs)
+        other, k5, mangled, xshape = _recipe_failures(case, obs)
     except Exception:
         return None
     if other:
@@ -1097,6 +1107,8 @@ def match_finding(case, obs, msg, findings):
         return XSHAPE
     if msg.startswith("native-literal-class") and NATIVE in ids and case.get("native") and mangled and not xshape:
         return NATIVE
+    if msg.startswith("K5-class") and K5 in ids and not case.get("big") and k5 and not mangled and not xshape:
+        return K5
     return None
 
 
